@@ -122,4 +122,30 @@ def run (q : Q) : List Op → Q × List Out
   | [] => (q, [])
   | op :: ops => let r := step q op; let r' := run r.1 ops; (r'.1, r.2 :: r'.2)
 
+/-! ### Several queues at once: operations that take ANOTHER queue as their argument -/
+
+/-- Operations on a world of queues, addressed by index. -/
+inductive WOp where
+  | newc (ds : List Bytes)                 -- a further container, built from the given slices
+  | on (i : Nat) (op : Op)                 -- one single-container operation on container `i`
+  | appendFrom (i j : Nat)                 -- `c_i.AppendContainer(c_j)` — `c_j` in whatever state it is (j = i allowed)
+  | appendFromAsBlock (i j : Nat)          -- `c_i.AppendContainerAsBlock(c_j)`
+  deriving Repr
+
+def wstep (w : List Q) : WOp → List Q × Out
+  | .newc ds => (w ++ [ds.flatten], .unit)
+  | .on i op => match w[i]? with
+    | some q => let r := step q op; (w.set i r.1, r.2)
+    | none => (w, .err "noslot")
+  | .appendFrom i j => match w[i]?, w[j]? with
+    | some q, some p => (w.set i (q ++ p), .unit)
+    | _, _ => (w, .err "noslot")
+  | .appendFromAsBlock i j => match w[i]?, w[j]? with
+    | some q, some p => (w.set i (q ++ pack64 p.length ++ p), .unit)
+    | _, _ => (w, .err "noslot")
+
+def wrun (w : List Q) : List WOp → List Q × List Out
+  | [] => (w, [])
+  | op :: ops => let r := wstep w op; let r' := wrun r.1 ops; (r'.1, r.2 :: r'.2)
+
 end PB.ByteQueue
